@@ -97,14 +97,20 @@ func allChecks() []Check {
 				{Harness: "VP_C04_arith", Quick: map[string]int{"OP": 0, "CB": 1000000, "E": 1, "DB": 0}, Thorough: map[string]int{"OP": 0, "CB": 1000000000, "E": 2, "DB": 0}, MustReach: []string{"C04/arith/done"}, PanicLabel: "C04/arith/no-panic"},
 				{Harness: "VP_C04_arith", Quick: map[string]int{"OP": 1, "CB": 1000000, "E": 1, "DB": 0}, Thorough: map[string]int{"OP": 1, "CB": 1000000000, "E": 2, "DB": 0}, MustReach: []string{"C04/arith/done"}, PanicLabel: "C04/arith/no-panic"},
 				{Harness: "VP_C04_arith", Quick: map[string]int{"OP": 2, "CB": 100000, "E": 1, "DB": 0}, Thorough: map[string]int{"OP": 2, "CB": 1000000, "E": 2, "DB": 0}, MustReach: []string{"C04/arith/done"}, PanicLabel: "C04/arith/no-panic"},
+				{Harness: "VP_C04_arith", Quick: map[string]int{"OP": 2, "CB": 4294967296, "E": 0, "DB": 0}, MustReach: []string{"C04/arith/done"}, PanicLabel: "C04/arith/no-panic"},
+				{Harness: "VP_C04_twice", Quick: map[string]int{}, MustReach: []string{"C04/twice/done"}, PanicLabel: "C04/twice/no-panic", SampleEvery: 1},
+				{Harness: "VP_C04_quo", Quick: map[string]int{}, MustReach: []string{"C04/quo/done"}, PanicLabel: "C04/quo/no-panic", SampleEvery: 3},
 				{Harness: "VP_C04_arith", Quick: map[string]int{"OP": 3, "CB": 1000, "E": 1, "DB": 6}, Thorough: map[string]int{"OP": 3, "CB": 1000, "E": 1, "DB": 30}, MustReach: []string{"C04/arith/done"}, PanicLabel: "C04/arith/no-panic"},
 			},
 			Bounds: map[string]string{"arith": "[a OP b] evaluated by the real runner for a, b = (-1)^s * c * 10^e with symbolic sign and coefficient c < CB and every exponent pair in [-E,E]^2 (real decimal add/mul/quorem code executed symbolically) vs exact integer arithmetic at the common exponent; result context asserted to be precision 34 / half-even; OP 0,1 (+,-): CB=10^6 quick / 10^9 thorough; OP 2 (*): CB=10^5 / 10^6; OP 3 (%): the divisor's coefficient is case-split over 1..DB-1 (symbolic-by-symbolic division does not finish), dividend c < 1000",
+				"arith-mul32": "'*' with both coefficients symbolic below 2^32 at exponent 0: every product up to 2^64 incl. the window [2^63, 2^64) where a signed 64-bit intermediate would wrap",
+				"twice":       "CONCRETE POOL (not symbolic): 15 formulas (the statement's examples, negated literals, literals next to int / int64 / float64 data) parsed once and evaluated three times in fresh runners: every evaluation gives the same exact result",
+				"quo":         "CONCRETE POOL (not symbolic): 121 quotients incl. exact ties at the 35th digit, 34-digit operands, operands around 2^63 / 2^64, mixed signs and exponents; expected values computed independently (Python decimal prec 34 ROUND_HALF_EVEN)",
 				"entry-float": "CONCRETE POOL (not symbolic): 18 float64 data values incl. 0.1, 0.3, 2^53+1, 1e19, 2^63, 1e22, 5e-324, MaxFloat64 with hand-written expected decimal (coefficient, exponent); strconv's shortest formatting of a symbolic float is not encodable",
 				"wide":        "CONCRETE POOL (not symbolic): 354 cases of + - * % on operands of up to 34 digits (incl. a systematic family of results just below/above a power of ten with exponent gaps 32..36) incl. results that must be rounded half-even to 34 digits; expected values computed independently (Python decimal prec 34 ROUND_HALF_EVEN, exact big integers for %)",
 				"handback":    "CONCRETE POOL (not symbolic): 18 formulas whose result is an integer of at most 15 digits scaled by a power of ten within 10^-22..10^22 (incl. 19-digit values beyond 2^63): the float64 handed back by Resolve must be the nearest one",
 				"entry-int":   "a Go int64 / int / int32 data value n (one symbolic 64-bit value, 1 <= |n| < 2^63, plus |n| < 1000 incl. 0) read back through the evaluator equals n exactly"},
-			Outside:     []string{"n = MinInt64", "'/' (the library scales the dividend by 10^34 into math/big: division on symbolic words does not finish in any back end)", "results beyond 34 digits (the half-even rounding regime needs coefficients beyond 64 bits)", "float64 data values and the final float64 hand-back (strconv formatting/parsing of symbolic floats is not encodable)", "chains of operations"},
+			Outside:     []string{"n = MinInt64", "'/' on symbolic operands (the library scales the dividend by 10^34 into math/big: division on symbolic words does not finish in any back end; a concrete pool is checked instead)", "results beyond 34 digits (the half-even rounding regime needs coefficients beyond 64 bits)", "float64 data values and the final float64 hand-back (strconv formatting/parsing of symbolic floats is not encodable)", "chains of operations"},
 			Assumptions: commonAssumptions,
 		},
 		{
@@ -113,23 +119,29 @@ func allChecks() []Check {
 				{Harness: "VP_C05_numbers", Quick: map[string]int{"CB": 10, "E": 0, "WIDE": 0, "NEAR": 1}, Thorough: map[string]int{"CB": 10, "E": 0, "WIDE": 0, "NEAR": 2}, MustReach: []string{"C05/numbers/done"}, PanicLabel: "C05/numbers/no-panic"},
 				{Harness: "VP_C05_numbers", Quick: map[string]int{"CB": 100, "E": 1, "WIDE": 20, "NEAR": 0}, Thorough: map[string]int{"CB": 1000, "E": 1, "WIDE": 36, "NEAR": 0}, MustReach: []string{"C05/numbers/done"}, PanicLabel: "C05/numbers/no-panic"},
 				{Harness: "VP_C05_numbers", Quick: map[string]int{"CB": 1000000, "E": 2, "WIDE": 0, "NEAR": 0}, Thorough: map[string]int{"CB": 1000000000, "E": 4, "WIDE": 0, "NEAR": 0}, MustReach: []string{"C05/numbers/done"}, PanicLabel: "C05/numbers/no-panic"},
+				{Harness: "VP_C05_pool", Quick: map[string]int{}, MustReach: []string{"C05/pool/done"}, PanicLabel: "C05/pool/no-panic", SampleEvery: 7},
 				{Harness: "VP_C05_strings", Quick: map[string]int{"S": 3}, Thorough: map[string]int{"S": 5}, MustReach: []string{"C05/strings/done"}, PanicLabel: "C05/strings/no-panic"},
 				{Harness: "VP_C05_kinds", Quick: map[string]int{}, MustReach: []string{"C05/kinds/done"}, PanicLabel: "C05/kinds/no-panic"},
 			},
-			Bounds: map[string]string{"numbers": "a, b = (-1)^s * c * 10^e with symbolic sign and coefficient c < CB, every exponent pair in [-E,E]^2 (so every spelling 1, 1.0, 10e-1 of a value is a (c,e) pair), incl. -0; all eight operators evaluated by the real runner (real decimal.Cmp executed symbolically) vs exact integer order at the common exponent; quick CB=10^6,E=2; thorough CB=10^9,E=4",
+			Bounds: map[string]string{"pool": "CONCRETE POOL (not symbolic): 24 literal pairs (34-digit coefficients one unit apart, values that collapse in binary floating point, exponents to 10^+-6000 (the decimal128 range; beyond it unary minus underflows, which the statement does not cover), several spellings of one value) x both orders x both signs x eight operators through parser and runner",
+				"numbers":      "a, b = (-1)^s * c * 10^e with symbolic sign and coefficient c < CB, every exponent pair in [-E,E]^2 (so every spelling 1, 1.0, 10e-1 of a value is a (c,e) pair), incl. -0; all eight operators evaluated by the real runner (real decimal.Cmp executed symbolically) vs exact integer order at the common exponent; quick CB=10^6,E=2; thorough CB=10^9,E=4",
 				"numbers-near": "16-digit coefficients 8000000000000000+d (thorough: 9007199254740990+d), d < 8 symbolic, common exponent in {0,-7,-14}: distinct decimals that collapse in binary floating point",
 				"numbers-wide": "the same with exponents from the sparse grid {0, 1, W/2, W-1, W} (one side also negated): values beyond 2^63 and up to 10^W apart; quick c<100, W=20; thorough c<1000, W=36",
 				"strings":      "two strings of 0..S symbolic bytes vs an explicit byte-wise loop; quick S=3, thorough S=5",
 				"kinds":        "operands over {null, typed nil pointer, bool, number (c<1000, e in -1..1), string (<=1 byte)}^2 for == != === !=="},
-			Outside:     []string{"coefficients beyond 64 bits (34-digit values)", "NaN / infinity ordering", "== and relational operators on operands of different kinds (statement silent)"},
+			Outside:     []string{"symbolic coefficients beyond 64 bits (34-digit values: concrete pool only)", "NaN / infinity ordering", "== and relational operators on operands of different kinds (statement silent)"},
 			Assumptions: commonAssumptions,
 		},
 		{
 			ID: "C06", Title: "One notion of truthiness drives every selection operator",
 			Runs: []HarnessRun{
 				{Harness: "VP_C06_truthiness", Quick: map[string]int{}, MustReach: []string{"C06/done"}, PanicLabel: "C06/no-panic", SampleEvery: 13},
+				{Harness: "VP_C06_effects", Quick: map[string]int{}, MustReach: []string{"C06/effects/done"}, PanicLabel: "C06/effects/no-panic", SampleEvery: 5},
+				{Harness: "VP_C06_reeval", Quick: map[string]int{}, MustReach: []string{"C06/reeval/done"}, PanicLabel: "C06/reeval/no-panic", SampleEvery: 29},
 			},
-			Bounds:      map[string]string{"truthiness": "condition value over {null, typed nil pointer, bool, finite number (symbolic, incl. 0 and -0), NaN, +-Inf, string of 0..2 symbolic bytes, arrays, map, time, func} x {!!x, !x, c?a:b with recording branches, &&, ||, ??, one nested form}"},
+			Bounds: map[string]string{"truthiness": "condition value over {null, typed nil pointer, bool, finite number (symbolic, incl. 0 and -0), NaN, +-Inf, string of 0..2 symbolic bytes, arrays, map, time, func} x {!!x, !x, c?a:b with recording branches, &&, ||, ??, one nested form}",
+				"effects": "&&, ||, ??, ?: (both arms), !! and a comma form through the real parser with the left operand / condition a recording host function that returns a different value on every call, over 8 first values: evaluated exactly once, the judged value handed back, the unselected arm not run",
+				"reeval":  "8 forms (this.c / c / this.m.c conditions, &&, ||, !!, typeof, ??) parsed once and evaluated against two data maps (8 x 8 values), on the same or a fresh runner: the second result follows the second map"},
 			Outside:     []string{"!x on strings / composites / typed nil pointers (statement covers booleans, numbers and null)"},
 			Assumptions: commonAssumptions,
 		},
@@ -139,10 +151,14 @@ func allChecks() []Check {
 				{Harness: "VP_C07_locals", Quick: map[string]int{"N": 2, "D": 2}, Thorough: map[string]int{"N": 3, "D": 2}, MustReach: []string{"C07/locals/value", "C07/locals/error"}, PanicLabel: "C07/locals/no-panic"},
 				{Harness: "VP_C07_sequencing", Quick: map[string]int{"W": 2}, MustReach: []string{"C07/sequencing/done"}, PanicLabel: "C07/sequencing/no-panic"},
 				{Harness: "VP_C07_builtins", Quick: map[string]int{}, MustReach: []string{"C07/builtins/done"}, PanicLabel: "C07/builtins/no-panic"},
+				{Harness: "VP_C07_operators", Quick: map[string]int{}, MustReach: []string{"C07/operators/done"}, PanicLabel: "C07/operators/no-panic", SampleEvery: 41},
+				{Harness: "VP_C07_rebind", Quick: map[string]int{}, MustReach: []string{"C07/rebind/done"}, PanicLabel: "C07/rebind/no-panic", SampleEvery: 5},
 			},
-			Bounds: map[string]string{"sequencing": "L , R where L is an assignment wrapped in up to two of {parentheses, selected/unselected-side/condition of a conditional, array element, call argument, nested comma} with fillers that read locals, and R reads $a / [$a,$b] / $b = $a; value, call count and visibility in a later evaluation against the reference",
-				"builtins": "$a = num, fn($a), fn(num), [$a, num] for each of 10 numeric builtins and a symbolic number (c < 1000, e in -2..0): the local and the caller's number still hold the original value; write monitor on the data map",
-				"locals":   "programs chosen symbolically over {literal, $a/$b read, x/y read, $n = e, e,e, [e,e], f(e,e) (recording host function), c?e:e, (e), forbidden targets x=e, 1=e, x.k=e} with at most N+1 generated nodes, against a store-passing reference evaluator; frame condition by the engine's write monitor over every cell reachable from the data map plus a native-checkable snapshot comparison"},
+			Bounds: map[string]string{"operators": "$a = num, (FORM), [$a, num] through the real parser for 12 two-operand shapes x 14 operators and 11 one-operand shapes over 5 concrete numbers (incl. 19 digits): local, later read and caller's number unchanged, also when FORM fails; write monitor",
+				"rebind":     "4 successful assignments, then one of 7 assignments whose right-hand side fails, then a read in a third evaluation by the same runner: the earlier binding is still visible",
+				"sequencing": "L , R where L is an assignment wrapped in up to two of {parentheses, selected/unselected-side/condition of a conditional, array element, call argument, nested comma} with fillers that read locals, and R reads $a / [$a,$b] / $b = $a; value, call count and visibility in a later evaluation against the reference",
+				"builtins":   "$a = num, fn($a), fn(num), [$a, num] for each of 10 numeric builtins and a symbolic number (c < 1000, e in -2..0): the local and the caller's number still hold the original value; write monitor on the data map",
+				"locals":     "programs chosen symbolically over {literal, $a/$b read, x/y read, $n = e, e,e, [e,e], f(e,e) (recording host function), c?e:e, (e), forbidden targets x=e, 1=e, x.k=e} with at most N+1 generated nodes, against a store-passing reference evaluator; frame condition by the engine's write monitor over every cell reachable from the data map plus a native-checkable snapshot comparison"},
 			Outside:     []string{"programs larger than the bound"},
 			Assumptions: append([]string{"write monitor: Store / map update / delete / clear instructions of the SSA code are intercepted; writes inside reflect.Value.Set* models are intercepted in SetMapIndex"}, commonAssumptions...),
 		},
@@ -194,24 +210,34 @@ func allChecks() []Check {
 				{Harness: "VP_C17_slice", Quick: map[string]int{"S": 3}, Thorough: map[string]int{"S": 5}, MustReach: []string{"C17/slice/done"}, PanicLabel: "C17/slice/no-panic"},
 				{Harness: "VP_C17_pad", Quick: map[string]int{"S": 3}, Thorough: map[string]int{"S": 4}, MustReach: []string{"C17/pad/done"}, PanicLabel: "C17/pad/no-panic"},
 				{Harness: "VP_C17_transform", Quick: map[string]int{"S": 3}, Thorough: map[string]int{"S": 4}, MustReach: []string{"C17/transform/done"}, PanicLabel: "C17/transform/no-panic"},
+				{Harness: "VP_C17_regexp", Quick: map[string]int{}, MustReach: []string{"C17/regexp/done"}, PanicLabel: "C17/regexp/no-panic", SampleEvery: 23},
 				{Harness: "VP_C17_lists", Quick: map[string]int{"S": 2}, Thorough: map[string]int{"S": 3}, MustReach: []string{"C17/lists/done"}, PanicLabel: "C17/lists/no-panic"},
 			},
-			Bounds:      map[string]string{"all": "builtins fetched by name through the runner; strings of 0..S symbolic bytes (transform: ASCII), one symbolic pad byte, symbolic 64-bit positions assumed in range as the statement says; oracles are definitional loops and the algebraic laws"},
-			Outside:     []string{"regexp (symbolic subject/pattern cannot be encoded)", "lower/upper/trim on non-ASCII text", "replace with an empty search string", "panics on out-of-range positions are C03's subject (the harness recovers and judges returned values only)"},
+			Bounds: map[string]string{"regexp": "CONCRETE POOL (not symbolic): 30 patterns x 23 subjects through the runner against an independently computed table and against the regexp package called directly",
+				"all": "builtins fetched by name through the runner; strings of 0..S symbolic bytes (transform: ASCII), one symbolic pad byte, symbolic 64-bit positions assumed in range as the statement says; oracles are definitional loops and the algebraic laws"},
+			Outside:     []string{"regexp with a symbolic subject or pattern (cannot be encoded; a concrete pool is checked instead)", "lower/upper/trim on non-ASCII text", "replace with an empty search string", "panics on out-of-range positions are C03's subject (the harness recovers and judges returned values only)"},
 			Assumptions: append([]string{"strings.Index / bytealg primitives are modelled by naive loops per their documented contract"}, commonAssumptions...),
 		},
 		{
 			ID: "C18", Title: "Numeric builtins and bit operators compute what their names say",
 			Runs: []HarnessRun{
-				{Harness: "VP_C18_rounding", Quick: map[string]int{"CB": 1000, "E": 2}, Thorough: map[string]int{"CB": 1000000, "E": 4}, MustReach: []string{"C18/rounding/done"}, PanicLabel: "C18/rounding/no-panic"},
+				{Harness: "VP_C18_rounding", Quick: map[string]int{"CB": 1000, "E": 2, "H": 0}, Thorough: map[string]int{"CB": 1000000, "E": 4, "H": 0}, MustReach: []string{"C18/rounding/done"}, PanicLabel: "C18/rounding/no-panic"},
+				{Harness: "VP_C18_rounding", Quick: map[string]int{"CB": 100, "E": 1, "H": 1}, Thorough: map[string]int{"CB": 1000, "E": 2, "H": 1}, MustReach: []string{"C18/rounding/done"}, PanicLabel: "C18/rounding/no-panic"},
+				{Harness: "VP_C18_tostring", Quick: map[string]int{"CB": 32, "E": 24}, Thorough: map[string]int{"CB": 1000, "E": 24}, MustReach: []string{"C18/tostring/done"}, PanicLabel: "C18/tostring/no-panic"},
+				{Harness: "VP_C18_trans", Quick: map[string]int{}, MustReach: []string{"C18/trans/done"}, PanicLabel: "C18/trans/no-panic", SampleEvery: 3},
+				{Harness: "VP_C18_inverse", Quick: map[string]int{}, MustReach: []string{"C18/inverse/done"}, PanicLabel: "C18/inverse/no-panic", SampleEvery: 3},
 				{Harness: "VP_C18_minmax", Quick: map[string]int{"N": 3, "CB": 10}, Thorough: map[string]int{"N": 4, "CB": 10}, MustReach: []string{"C18/minmax/done"}, PanicLabel: "C18/minmax/no-panic"},
 				{Harness: "VP_C18_conv", Quick: map[string]int{"CB": 1000, "E": 2}, Thorough: map[string]int{"CB": 100000, "E": 3}, MustReach: []string{"C18/conv/done"}, PanicLabel: "C18/conv/no-panic"},
 				{Harness: "VP_C18_bits", Quick: map[string]int{"B": 6, "K": 2}, Thorough: map[string]int{"B": 10, "K": 2}, MustReach: []string{"C18/bits/done"}, PanicLabel: "C18/bits/no-panic"},
 				{Harness: "VP_C18_bits", Quick: map[string]int{"B": 20, "K": 0}, Thorough: map[string]int{"B": 31, "K": 0}, MustReach: []string{"C18/bits/done"}, PanicLabel: "C18/bits/no-panic"},
 				{Harness: "VP_C18_bigints", Quick: map[string]int{"LO": 0, "HI": 62}, MustReach: []string{"C18/bigints/done"}, PanicLabel: "C18/bigints/no-panic"},
 			},
-			Bounds:      map[string]string{"rounding": "abs ceil floor round roundBank on x = (-1)^s * c * 10^e, c < CB symbolic, e in -E..1 (library Quantize/RoundToInt executed symbolically)", "minmax": "lists of 1..N symbolic numbers", "conv": "toInt, toFloat (numbers and texts of 1..4 bytes over {0-9 . e - space x}), toString round trip (c < 1000), finite", "bits": "& | ^ ~ on integers |v| < 2^B vs two's complement", "bigints": "toInt(n) and n & n for one symbolic integer 1 <= |n| < 2^62"},
-			Outside:     []string{"sqrt exp ln log (iterative big-number algorithms: not encodable)", "arguments with more digits than the bounds"},
+			Bounds: map[string]string{"rounding": "abs ceil floor round roundBank on x = (-1)^s * c * 10^e, c < CB symbolic, e in -E..1 (library Quantize/RoundToInt executed symbolically)", "minmax": "lists of 1..N symbolic numbers", "conv": "toInt, toFloat (numbers and texts of 1..4 bytes over {0-9 . e - space x}), toString round trip (c < 1000), finite", "bits": "& | ^ ~ on integers |v| < 2^B vs two's complement", "bigints": "toInt(n) and n & n for one symbolic integer 1 <= |n| < 2^62",
+				"rounding-history": "the same with another rounding builtin (none / round / roundBank) called earlier in the process",
+				"tostring":         "toString(x) parsed back by toFloat for c < CB symbolic and every exponent in -E..E (both notations of the number printer)",
+				"trans":            "CONCRETE POOL (not symbolic): 108 arguments of sqrt/exp/ln/log incl. exact squares, powers of ten, values near 1; results within one unit in the 15th significant digit of the 34-digit value computed independently (Python decimal)",
+				"inverse":          "CONCRETE POOL (not symbolic): sqrt(x*x), sqrt(x)^2, exp(ln x), ln(exp x), log(x*x)-2log(x), ln(x*x)-2ln(x) through parser and runner for 15 arguments; 13-15 significant digits demanded (composed rounding)"},
+			Outside:     []string{"sqrt exp ln log on symbolic arguments (iterative big-number algorithms: not encodable; concrete pools only)", "arguments with more digits than the bounds"},
 			Assumptions: commonAssumptions,
 		},
 		{
@@ -230,7 +256,7 @@ func allChecks() []Check {
 			Runs: []HarnessRun{
 				{Harness: "VP_C20_runner", Quick: map[string]int{"N": 3}, Thorough: map[string]int{"N": 4}, MustReach: []string{"C20/runner/done"}, PanicLabel: "C20/runner/no-panic"},
 			},
-			Bounds:      map[string]string{"runner": "every sequence of N operations over {SetThis(nil | {a:v} | {$x:7}), SetThisValue(a|$x, v), evaluate one of 7 formulas reading/assigning $x and a, Set(k,v), Get(k)} from both initial states, against the two-map model; quick N=3, thorough N=4"},
+			Bounds:      map[string]string{"runner": "every sequence of N operations over {SetThis(nil | {a:v} | {$x:7} | {$x:'1',a:1} | a map object the caller kept and hands in again), SetThisValue(a|$x, v), evaluate one of 16 formulas reading/assigning $x, $y, $z and a (incl. a fractional local passed to round, and an assignment whose right-hand side fails), Set(k,v), Get(k)} from both initial states, against the two-map model (map objects have identity: locals live in the caller's map); quick N=3, thorough N=4"},
 			Outside:     []string{"longer histories"},
 			Assumptions: commonAssumptions,
 		},
@@ -240,17 +266,21 @@ func allChecks() []Check {
 				{Harness: "VP_C11_hostcalls", Quick: map[string]int{"A": 2}, Thorough: map[string]int{"A": 3}, MustReach: []string{"C11/hostcalls/value", "C11/hostcalls/error"}, PanicLabel: "C11/hostcalls/no-panic"},
 				{Harness: "VP_C11_history", Quick: map[string]int{}, MustReach: []string{"C11/history/done"}, PanicLabel: "C11/history/no-panic", SampleEvery: 1},
 				{Harness: "VP_C11_results", Quick: map[string]int{}, MustReach: []string{"C11/results/value", "C11/results/error"}, PanicLabel: "C11/results/no-panic"},
+				{Harness: "VP_C11_trunc", Quick: map[string]int{"B": 16, "E": 0}, Thorough: map[string]int{"B": 8, "E": 1}, MustReach: []string{"C11/trunc/done"}, PanicLabel: "C11/trunc/no-panic"},
+				{Harness: "VP_C11_nested", Quick: map[string]int{}, MustReach: []string{"C11/nested/done"}, PanicLabel: "C11/nested/no-panic", SampleEvery: 3},
 			},
-			Bounds:      map[string]string{"hostcalls": "14 recording host functions (string, int, int8, float64, bool, interface{}, *decimal.Big, time.Time, []string, []int, map[string]int parameters, variadic tails, optional leading context) x argument lists of length 0..A over {null, symbolic bool, numbers from a pool incl. fractions and negatives, symbolic strings, string array, number array, map, time}, with and without spread; the oracle predicts the exact invocation log or an error", "results": "returned error (symbolic) aborts with an error naming the function; returned int/int32/int64/float32/float64 become numbers"},
-			Outside:     []string{"the text produced when a composite value is converted to a string parameter", "numbers beyond the pool (the number-to-int bridge is floating point)", "host functions with other parameter kinds"},
+			Bounds: map[string]string{"trunc": "x = (-1)^s * c * 10^e with c < 2^B symbolic and e in -E..E passed to int / int64 / float64 parameters: the received integer is x truncated toward zero, the received float is exact for integers and brackets the value otherwise (the bridge's float64 division is decided by the solver's floating-point theory); quick B=16,E=0 (integers: conversions only); thorough B=8,E=1 (with the float64 division by a power of ten)",
+				"nested":    "7 formulas whose arguments are themselves calls (first / middle / last position, two levels, variadic) on a fresh runner, after an earlier evaluation by the same runner, and after an earlier call in the same formula: the invocation log equals the left-to-right log with each call's own arguments",
+				"hostcalls": "16 recording host functions (string, int, int8, float64, bool, interface{}, *decimal.Big, time.Time, []string, []int, []int32, []byte, map[string]int parameters, variadic tails, optional leading context) x argument lists of length 0..A over {null, symbolic bool, numbers from a pool incl. fractions and negatives, symbolic strings, string array, number array, map, time}, with and without spread; the oracle predicts the exact invocation log or an error", "results": "returned error (symbolic) aborts with an error naming the function; returned int/int32/int64/float32/float64 become numbers"},
+			Outside:     []string{"the text produced when a composite value is converted to a string parameter", "numbers beyond the pool and the C11/trunc bounds (the number-to-int bridge is floating point)", "host functions with other parameter kinds"},
 			Assumptions: commonAssumptions,
 		},
 		{
 			ID: "C12", Title: "Numeric literals denote exactly the decimal number written",
 			Runs: []HarnessRun{
 				{Harness: "VP_C12_long", Quick: map[string]int{}, MustReach: []string{"C12/long/done"}, PanicLabel: "C12/long/no-panic", SampleEvery: 1},
-				{Harness: "VP_C12_literals", Quick: map[string]int{"L": 6, "ALPHA": 1}, Thorough: map[string]int{"L": 7, "ALPHA": 1}, MustReach: []string{"C12/literals/wellformed", "C12/literals/malformed"}, PanicLabel: "C12/literals/no-panic"},
-				{Harness: "VP_C12_literals", Quick: map[string]int{"L": 4, "ALPHA": 0}, Thorough: map[string]int{"L": 6, "ALPHA": 0}, MustReach: []string{"C12/literals/wellformed", "C12/literals/malformed"}, PanicLabel: "C12/literals/no-panic"},
+				{Harness: "VP_C12_literals", Quick: map[string]int{"L": 6, "ALPHA": 1, "CTX": 3}, Thorough: map[string]int{"L": 7, "ALPHA": 1, "CTX": 3}, MustReach: []string{"C12/literals/wellformed", "C12/literals/malformed"}, PanicLabel: "C12/literals/no-panic"},
+				{Harness: "VP_C12_literals", Quick: map[string]int{"L": 4, "ALPHA": 0, "CTX": 6}, Thorough: map[string]int{"L": 6, "ALPHA": 0, "CTX": 6}, MustReach: []string{"C12/literals/wellformed", "C12/literals/malformed"}, PanicLabel: "C12/literals/no-panic"},
 			},
 			Bounds:      map[string]string{"literals": "every text of 1..L bytes over the alphabet {0-9 . e E + - _ a} that is exactly one literal candidate per the reference recogniser, in three syntactic positions (bare, [lit], 1?(lit):0); digits stay symbolic inside the class; quick L=4, thorough L=6"},
 			Outside:     []string{"literals longer than L bytes (40-digit parts)", "identifier characters other than 'a' directly after a literal (the class test IsIdentifierStart is C14's subject)"},
@@ -277,6 +307,7 @@ func allChecks() []Check {
 				{Harness: "VP_C14_scanstep", Quick: map[string]int{"L": 3}, Thorough: map[string]int{"L": 4}, MustReach: []string{"C14/scanstep/done"}, PanicLabel: "C14/scanstep/no-panic"},
 			},
 			Bounds: map[string]string{"tokens": "the real scanner's token sequence (kind, start, end, line-break flag) equals an independent longest-match reference tokenizer's (operator table longest-first, keywords as whole words, identifier classes, ES whitespace/line-break separators) on every text of L symbolic bytes (quick L=2, thorough L=3) and on every text of L bytes over the operator-dense alphabet {= ! . & | ? < > + a 1 space newline 0xC2 0xA0 (NBSP)} (quick L=4, thorough L=5); comparison stops where the statement leaves token extents open (malformed numbers, hex, unterminated strings, escapes)",
+				"spacing": "byte level: every text of L bytes over {a 1 . ( ) , + ! ? : space}, a separator from {space, tab, LF, CR LF, U+2028, NBSP, space LF space} inserted before any one token (also before the end): an accepted text stays accepted with the same tree, a rejected text stays rejected; line breaks before . !. ( excepted; quick L=3, thorough L=4",
 				"classes": "every code point 0..0x10FFFF (one symbolic 32-bit rune)", "scanstep": "one Scan() from every start position of every text of L symbolic bytes (inductive step: tiling for all texts of that size follows by induction over calls); quick L=3, thorough L=4"},
 			Outside:     []string{"contents of the ES5 identifier tables (no independent oracle)", "texts longer than the bound"},
 			Assumptions: commonAssumptions,
